@@ -89,3 +89,20 @@ package evidence
 //@   atcall Pool.AddEvidence requires [onlyDecodedAndValidatedEvidence] ev != nil && evpool == evR.evpool
 //@   loop 1:
 //@     invariant 0 <= iter && evR.evpool != nil && evR.Switch != nil && evR.Logger != nil && (forall k int :: 0 <= k && k < len(evis) ==> evis[k] != nil)
+
+// The only evidence in a proposed block that skips verification is evidence this node already holds as
+// PENDING (it verified it when it accepted it); committed evidence never takes the shortcut -- it must
+// reach the already-committed check.
+//@ func (evpool *Pool) fastCheck(ev types.Evidence) (r bool)
+//@   for C19
+//@   requires evpool != nil
+//@   modifies nothing
+//@   ensures [onlyPendingEvidenceSkipsVerification] r <==> evPending(evpool, ev)
+
+// A pool opened on an existing database counts the pending evidence it found there: the counter is what
+// PendingEvidence consults before it lists anything for a proposal.
+//@ func NewPool(stateDB cstate.Store, evidenceDB kaidb.Database, blockStore BlockStore) (r *Pool, err error)
+//@   for C19
+//@   modifies *
+//@   opt assumecallreqs
+//@   atcall StoreUint32 requires [counterRestoredFromTheStoredList] val == toUint32(len(result(Pool.listEvidence, 0)))
